@@ -1127,7 +1127,9 @@ class Function(Ring):
         return Function.pushforward(algopy.sign, [self])
 
     def sum(self, axis=None, dtype=None, out=None):
-        return Function.pushforward(algopy.sum, [self, axis, dtype, out])
+        if dtype is not None or out is not None:
+            raise NotImplementedError('not implemented yet')
+        return Function.pushforward(algopy.sum, [self], Fkwargs={'axis': axis})
 
     def prod(self):
         return Function.pushforward(algopy.prod, [self])
